@@ -129,6 +129,29 @@ def work_special(args):
         return idx, cfgd, seed, ("special", scenario), [], None, {}, traceback.format_exc()
 
 
+def work_two(args):
+    idx, cfgd, seed, how = args
+    try:
+        cfg = ps.Cfg(**cfgd)
+        se = cs.run_two_clients(cfg, seed, how)
+        bad = []
+        if se.crash:
+            bad.append(("crash", "session ended abnormally: %s" % se.crash))
+        if se.timed_out:
+            bad.append(("hang", "the two-client session did not finish: some operation blocked beyond every bound"))
+        hb = [o for o in se.ops if o[0] == "handler@B"]
+        if se.b_dead_at is None or not hb:
+            bad.append(("reference", "the scripted two-client session did not reach the point where B's link dies"))
+        elif hb[0][2] is None or hb[0][2] > se.b_dead_at + se.bound + MARGIN:
+            bad.append(("late", "client A's connection ended (%s) while B was connected; when B's link died at %.3f the server released B's handler at %s, "
+                        "later than silence + ping_timeout + (resend_limit+1)*resend_timeout = %.3f" % (how, se.b_dead_at, hb[0][2], se.b_dead_at + se.bound)))
+        if getattr(se, "server_table", 0) != 0:
+            bad.append(("server-forgets", "the server still holds %d client entries after both connections ended (A: %s, then B's link died)" % (se.server_table, how)))
+        return idx, cfgd, seed, ("two-clients", how), bad, se, {"n": se.n_datagrams, "ops": len(se.ops), "connect": "ok"}, None
+    except Exception:
+        return idx, cfgd, seed, ("two-clients", how), [], None, {}, traceback.format_exc()
+
+
 def run(ctx):
     quick = ctx.tier == "quick"
     ctx.rule = ("crash-point enumeration: reference session per configuration (encoding x credentials x resend_limit), then for every k "
@@ -138,7 +161,7 @@ def run(ctx):
                 "exactly (resend_limit+1)*resend_timeout, late sends raise closed, server table empties, the address reconnects; each run is "
                 "replayed through the Lean L1 model tick-exactly; plus a forceful local close() on either side while recv / recv_unreliable are pending in other tasks "
                 "(released at once locally, within one delay at the peer; later recv raises end-of-stream), and a keyed server refusing the login (wrong key, "
-                "expired, garbage ticket), an incompatible peer that answers SYN and CONNECT at packet level (ticket presented to a keyless port; no credentials at a keyed port), and a server handler that ends with an exception (end-of-stream escaping its receive loop, a rejected request) — each followed by a new working connection from the same address; distinct non-trivial = distinct (configuration, k, mode)")
+                "expired, garbage ticket), an incompatible peer that answers SYN and CONNECT at packet level (ticket presented to a keyless port; no credentials at a keyed port), and a server handler that ends with an exception (end-of-stream escaping its receive loop, a rejected request) ; two clients on one port where one connection ends (gracefully, by silence, kicked) before the other's link dies — each followed by a new working connection from the same address; distinct non-trivial = distinct (configuration, k, mode)")
     base = dict(fragment_size=16, resend_timeout=0.5, ping_timeout=1.0)
     cfgs = []
     if quick:
@@ -177,19 +200,26 @@ def run(ctx):
                 sjobs.append((n, dict(base, version=version, credentials=True, resend_limit=lim), 1, sc)); n += 1
             for sc in ("handler-raises:eof", "handler-raises:reject", "incompatible:creds-vs-keyless", "incompatible:keyless-vs-keyed"):
                 sjobs.append((n, dict(base, version=version, credentials=False, resend_limit=lim), 1, sc)); n += 1
+    # two clients on one server port: one connection ends (gracefully, by silence, kicked by the server), later the other one's link dies
+    tjobs = []
+    for version in (1, 0):
+        for lim in ((2,) if quick else (0, 1, 3)):
+            for how in ("disconnect", "dies", "kicked"):
+                tjobs.append((n, dict(base, version=version, credentials=False, resend_limit=lim), 1, how)); n += 1
     drv = ctx.driver("C02")
     ndiff, first = 0, None
     with multiprocessing.Pool(min(16, os.cpu_count() or 4)) as pool:
         import itertools
-        for idx, cfgd, seed, kill, bad, se, stats, err in itertools.chain(pool.imap_unordered(work, jobs, chunksize=4), pool.imap_unordered(work_special, sjobs, chunksize=1)):
+        for idx, cfgd, seed, kill, bad, se, stats, err in itertools.chain(pool.imap_unordered(work, jobs, chunksize=4), pool.imap_unordered(work_special, sjobs, chunksize=1),
+                                                                          pool.imap_unordered(work_two, tjobs, chunksize=1)):
             if err:
                 ctx.corr_break("c02-session-harness", "session crashed in the harness", {"traceback": err, "cfg": cfgd, "kill": kill})
                 continue
             for key, what in bad:
                 ctx.violation("c02:%s:v%d" % (key, cfgd["version"]), what, {"cfg": cfgd, "kill": kill, "seed": seed,
                               "ops": [[o[0], o[1], o[2], o[3]] for o in se.ops] if se else None,
-                              "how": "harness/corr_C02.py work((0, cfg, seed, kill)) / harness/crash_session.run(cfg, seed, kill)"})
-            r = l1_corr.compare(drv, se, "x") if se is not None and cfgd.get("rmc") != "slow" else {"ok": True, "diffs": [], "skipped": True}
+                              "how": "harness/corr_C02.py work((0, cfg, seed, kill)) / harness/crash_session.run(cfg, seed, kill); kill = ('special', s): run_special(cfg, seed, s); ('two-clients', how): run_two_clients(cfg, seed, how)"})
+            r = l1_corr.compare(drv, se, "x") if se is not None and cfgd.get("rmc") != "slow" and not getattr(se, "skip_l1", False) else {"ok": True, "diffs": [], "skipped": True}
             if not r["ok"]:
                 ndiff += 1
                 if first is None:
